@@ -153,4 +153,6 @@ def judge(r, src):
 
 
 def needs_trees(r):
+    if hasattr(r, "has"):
+        return r.has(b'"parse1":"ok"') and r.has(b'"parse2":"ok"') and r.has(b'"ast_eq":false') and not r.has(b'"tree1":[')
     return r.get("parse1") == "ok" and r.get("parse2") == "ok" and not r.get("ast_eq", True) and "tree1" not in r
